@@ -7,6 +7,7 @@ CONSTANTS
   MaxLen = 6
   Waits <- W012
   Groups <- G31
+  SampledGroups = {}
   Bars <- Bal20
 INVARIANTS TypeOK BarrierOrder CountersExact Rules EndAfterMemory CompletionOnce
 CHECK_DEADLOCK FALSE
